@@ -37,6 +37,7 @@ type Spec struct {
 	Folder   string `json:"folder,omitempty"`
 	Unread   bool   `json:"unread,omitempty"`
 	Rejected bool   `json:"rejected,omitempty"`
+	Ext      string `json:"ext,omitempty"` // set_unread: spelling of the stored file's extension (default ".b2f")
 }
 
 type Result struct {
@@ -122,7 +123,11 @@ func main() {
 		p := fbb.NewProposal(s.MID, "title", fbb.Wl2kProposal, []byte("x"))
 		res.Answer = string([]byte{byte(h.GetInboundAnswer(*p))})
 	case "set_unread":
-		m, err := mailbox.OpenMessage(filepath.Join(s.Mbox, s.Folder, s.MID+mailbox.Ext))
+		ext := mailbox.Ext
+		if s.Ext != "" {
+			ext = s.Ext
+		}
+		m, err := mailbox.OpenMessage(filepath.Join(s.Mbox, s.Folder, s.MID+ext))
 		if err != nil {
 			res.Err = err.Error()
 			break
